@@ -362,8 +362,17 @@ func runC19(c *Ctx) error {
 	if c.Thorough() {
 		n = 1500
 	}
-	keys := []string{"ka", "kb", "kc", "kd"}
+	smallKeys := []string{"ka", "kb", "kc", "kd"}
 	for i := 0; i < n; i++ {
+		// every tenth history has blocks with more records than one batch of the permanent merge (333)
+		big := i%10 == 9
+		keys := smallKeys
+		if big {
+			keys = append([]string{}, smallKeys...)
+			for j := 0; j < 360; j++ {
+				keys = append(keys, fmt.Sprintf("x%03d", j))
+			}
+		}
 		d := &c19db{env: env, st: leveldbstorage.NewMemStorage(), permst: leveldbstorage.NewMemStorage(),
 			mapIDs: map[string]string{}, proofID: map[string]string{}, valueID: map[string]string{}, polID: map[string]string{}, ops: map[string]util.Hash{}, stcache: (i % 2) * 100}
 		if err := d.open(); err != nil {
@@ -373,16 +382,23 @@ func runC19(c *Ctx) error {
 		next, sufH, vcount, ocount, pcount := 0, -1, 0, 0, 0
 		opIDs := []string{"oX"} // oX is never written
 		nsteps := 4 + c.Intn(14)
+		if big {
+			nsteps = 4 + c.Intn(5)
+		}
 		for st := 0; st < nsteps; st++ {
 			var tok string
 			switch k := c.Intn(10); {
 			case k < 7 || next == 0:
 				b := &c19block{Height: next, States: map[string]string{}, SufH: -1}
-				for _, key := range keys {
-					if c.Chance(1, 3) {
+				bigBlock := big && (next == 0 || c.Chance(1, 2))
+				for j, key := range keys {
+					if (j < len(smallKeys) && c.Chance(1, 3)) || (j >= len(smallKeys) && bigBlock) {
 						vcount++
 						b.States[key] = fmt.Sprintf("v%d", vcount)
 					}
+				}
+				if bigBlock {
+					c.Count("big-blocks", "written")
 				}
 				if next == 0 || c.Chance(1, 3) {
 					sufH++
